@@ -539,7 +539,7 @@ func runC18(c *Ctx) {
 						ok, why = false, "returns a value that is neither the transitive flag nor the nil-receiver constant"
 					}
 				}
-				check(r.Results[0], r.Block())
+				check(ReturnOperand(r, 0), r.Block())
 			}
 			c.Check(FuncKey(itd)+"::only-nil-or-transitive-flag", itd.Pos(), ok && loads > 0, "isTransitivelyDone may answer true only for the nil task or when the transitive flag is set (a task whose own work is done may still be waiting for others): %s", why)
 		}
